@@ -4809,6 +4809,48 @@ func ruleReadinessByFirstNode(c *Ctx, rule string) {
 		}
 	}
 	c.floor(rule, "membership tests on the scheduled set in buildStmts", n, 1)
+	// the scheduled set starts as the initially provided nodes (the injector's arguments): a pool whose first provider
+	// takes an argument would otherwise never become ready
+	for _, fn := range chainBuilders(L, bs) {
+		for _, b := range fn.Blocks {
+			for _, in := range b.Instrs {
+				lk, ok := in.(*ssa.Lookup)
+				if !ok || !strings.Contains(lk.X.Type().String(), "map[*"+genPkg+".node]struct{}") || fn != bs {
+					continue
+				}
+				okInit, why := false, "the scheduled set is "+describe(resolve(lk.X))
+				switch x := resolve(lk.X).(type) {
+				case *ssa.Parameter:
+					okInit, why = true, "the provided-nodes parameter itself"
+				case *ssa.Call:
+					if calleeOf(x.Common()) == "maps.Clone" && len(x.Common().Args) == 1 {
+						if _, isP := resolve(x.Common().Args[0]).(*ssa.Parameter); isP {
+							okInit, why = true, "maps.Clone of the provided-nodes parameter"
+						}
+					}
+				case *ssa.MakeMap:
+					// filled from the parameter in a loop: an update keyed by a key of a range over a map parameter
+					if x.Referrers() != nil {
+						for _, r := range *x.Referrers() {
+							if mu, isMU := r.(*ssa.MapUpdate); isMU && mu.Map == ssa.Value(x) {
+								if ex, isEx := mu.Key.(*ssa.Extract); isEx {
+									if nx, isN := ex.Tuple.(*ssa.Next); isN {
+										if rg, isR := nx.Iter.(*ssa.Range); isR {
+											if _, isP := resolve(rg.X).(*ssa.Parameter); isP {
+												okInit, why = true, "copied from the provided-nodes parameter"
+											}
+										}
+									}
+								}
+							}
+						}
+					}
+				}
+				c.check(okInit, rule, fnName(bs)+":scheduled-set-starts-with-provided-nodes", L.pos(lk.Pos()),
+					"the set of scheduled nodes starts as the initially provided nodes (injector arguments count as available)", why)
+			}
+		}
+	}
 }
 
 // readinessKeyOfFirstNode: v is an element of reverseEdges[p[0]] for some pool p.
@@ -5729,4 +5771,130 @@ func ruleConverterHomeIsWirePackage(c *Ctx, rule string) {
 func calleeIsFn2(cs callSite, f *ssa.Function) bool {
 	cal := cs.common.StaticCallee()
 	return cal != nil && f != nil && originOf(cal) == f
+}
+
+// ruleLoadErrorsOfEveryPackage (C14): a syntax or type error in ANY loaded package stops the migration before anything is
+// written. The Errors of the loaded packages are inspected in a walk over the whole list that packages.Load returned
+// (element by element, at the running index), and a non-empty list leaves the function with an error - not only the
+// errors of one selected package (the patterns may name several packages with wire files).
+func ruleLoadErrorsOfEveryPackage(c *Ctx, rule string) {
+	L := c.L
+	mf := resolveRole(c, migPkg, "(*Migrator).MigrateFiles")
+	if mf == nil {
+		c.undecided(rule, "MigrateFiles", "not found")
+		return
+	}
+	n, ok, why := 0, false, "no inspection of packages.Package.Errors found"
+	for _, f := range family(L, mf) {
+		for _, b := range f.Blocks {
+			for _, in := range b.Instrs {
+				fa, isF := in.(*ssa.FieldAddr)
+				if !isF || fieldKey(fa) != "golang.org/x/tools/go/packages.Package.Errors" {
+					continue
+				}
+				n++
+				// the package: an element of a list at the running index of a loop over that list
+				base := resolve(fa.X)
+				u, isU := base.(*ssa.UnOp)
+				if !isU || u.Op != token.MUL {
+					why = "the errors inspected are those of " + describe(base)
+					continue
+				}
+				ia, isIA := u.X.(*ssa.IndexAddr)
+				if !isIA || !isRangeIndex(ia.Index) {
+					why = "the errors inspected are those of " + describe(base)
+					continue
+				}
+				// the list: what packages.Load returned (directly, or the parameter of a helper that is handed it)
+				list := resolve(ia.X)
+				fromLoad := false
+				var check func(v ssa.Value, d int) bool
+				check = func(v ssa.Value, d int) bool {
+					v = resolve(v)
+					if ex, isEx := v.(*ssa.Extract); isEx && ex.Index == 0 {
+						if call, isC := ex.Tuple.(*ssa.Call); isC && calleeOf(call.Common()) == "golang.org/x/tools/go/packages.Load" {
+							return true
+						}
+					}
+					if p, isP := v.(*ssa.Parameter); isP && d < 3 {
+						if vs, okT := threaded(L, p); okT {
+							for _, w := range vs {
+								if !check(w, d+1) {
+									return false
+								}
+							}
+							return true
+						}
+					}
+					return false
+				}
+				fromLoad = check(list, 0)
+				if !fromLoad {
+					why = "the list walked is " + describe(list)
+					continue
+				}
+				ok, why = true, "every element of the loaded list is inspected"
+			}
+		}
+	}
+	c.check(ok, rule, fnName(mf)+":load-errors-of-every-package", L.pos(mf.Pos()), "the load errors of every loaded package are inspected before anything is migrated", why)
+	c.floor(rule, "reads of packages.Package.Errors in the migration pipeline", n, 1)
+}
+
+// rulePreviousOutputsOfEveryFile (C11): every source file of the package may have left an output behind (also a file that has
+// lost its directives since): the set of previous-output names gets an entry for each non-nil syntax file. The insertion
+// sits in the walk over pkg.Syntax under nothing but the nil test of the file and the error test of filepath.Abs.
+func rulePreviousOutputsOfEveryFile(c *Ctx, rule string) {
+	L := c.L
+	pf := genFn(c, rule, "(*Parser).ParseFile")
+	if pf == nil {
+		return
+	}
+	n := 0
+	for _, f := range family(L, pf) {
+		for _, b := range f.Blocks {
+			for _, in := range b.Instrs {
+				mu, ok := in.(*ssa.MapUpdate)
+				if !ok || mu.Map.Type().String() != "map[string]struct{}" {
+					continue
+				}
+				s := newSym(L, map[string]bool{})
+				s.maxD = 0
+				kt := strings.Join(s.eval(mu.Key), "|")
+				if !strings.Contains(kt, "utputFileName(") && !strings.Contains(kt, "_band") {
+					continue
+				}
+				n++
+				var hdr *ssa.BasicBlock
+				for d := b.Idom(); d != nil; d = d.Idom() {
+					isHeader := false
+					for _, pr := range d.Preds {
+						if d.Dominates(pr) {
+							isHeader = true
+						}
+					}
+					if isHeader && reachable(b, d) {
+						hdr = d
+						break
+					}
+				}
+				extra := []string{}
+				for d := b.Idom(); d != nil && d != hdr; d = d.Idom() {
+					iff, isIf := d.Instrs[len(d.Instrs)-1].(*ssa.If)
+					if !isIf {
+						continue
+					}
+					if bo, isB := iff.Cond.(*ssa.BinOp); isB && (bo.Op == token.EQL || bo.Op == token.NEQ) && (isNilConst(bo.X) || isNilConst(bo.Y)) {
+						continue // f == nil, absErr == nil
+					}
+					s2 := newSym(L, map[string]bool{})
+					s2.maxD = 0
+					extra = append(extra, strings.Join(s2.eval(iff.Cond), "|"))
+				}
+				c.check(len(extra) == 0, rule, fnName(pf)+":previous-output-of-every-file", L.pos(mu.Pos()),
+					"every non-nil file of the package contributes the name of its (possible) previous output", fmt.Sprintf("the insertion is also filtered by: %v", extra))
+			}
+		}
+	}
+	c.floor(rule, "insertions into the previous-output set", n, 1)
 }
